@@ -3,6 +3,7 @@
 cd /verif || exit 2
 test -z "$(git -C /repo status --porcelain --untracked-files=no)" || { echo "/repo is dirty"; exit 2; }
 TIER=${1:-quick}
+python3 tools/genmanifest.py | grep -v conda
 rc=0
 for p in $(python3 -c "import json;print(' '.join(c['property_id'] for c in json.load(open('MANIFEST.json'))['checks']))"); do
   ./check $p --tier $TIER 2>&1 | grep -v conda | grep -E "VIOLATION|KNOWN-FINDING|obligations|Traceback|Error" | cut -c1-300
